@@ -23,7 +23,7 @@ ASSUMPTIONS = [
     "a class whose base cannot be resolved, or that names itself (directly or through a cycle) as base, must not make any lookup diverge; its "
     "content is then only judged for own entries",
 ]
-DEADLINE_S = {"quick": 480, "thorough": 1500}
+DEADLINE_S = {"quick": 540, "thorough": 1700}
 PREP = {"mode": "prepare", "conf": {"ops": "full"}}     # VM with all operators built once per worker, adopted by each forked case
 
 BODIES = {
@@ -368,8 +368,27 @@ def termination_queries():
     return qs
 
 
-def check(ws, files, variant="asan"):
+def consistency_queries():
+    """Model-free: what `P >> name` finds is what walking the base chain reported by inheritsFrom finds (own entry first).
+    Holds whatever a re-opening with another base is taken to mean; only judged for histories without `delete`."""
+    qs = []
+    for p in PATHS:
+        for en in ("x", "y", "arr"):
+            P = sqf_path(p)
+            qs.append(("chain-lookup %s>>%s" % (">>".join(p), en),
+                       'call { private _c = %s; private _own = configNull; private _n = 0; '
+                       'while {!isNull _c && {isNull _own} && {_n < 40}} do { private _e = _c >> "%s"; private _h = if (isNull _e) then {[]} else {configHierarchy _e}; '
+                       'if (count _h >= 2 && {(_h select ((count _h) - 2)) isEqualTo _c}) then { _own = _e } else { _c = inheritsFrom _c }; _n = _n + 1 }; '
+                       'private _d = %s >> "%s"; [isNull _own, getNumber _own, getArray _own] isEqualTo [isNull _d, getNumber _d, getArray _d] }' % (P, en, P, en), True))
+    return qs
+
+
+WARMUP = ";\n".join('isNull (%s >> "%s")' % (sqf_path(p), en) for p in PATHS for en in ("x", "y", "arr", "missing"))
+
+
+def check(ws, files, variant="asan", warm=False):
     texts = [" ".join(render_item(tuple(i)) for i in f) for f in files]
+    has_delete = any(it[0] == "class" and it[3] == "delx" for f in files for it in f)
     try:
         root = build_ref(files)
         qs = queries(root) + acyclic_queries()
@@ -378,9 +397,16 @@ def check(ws, files, variant="asan"):
         # to terminate and the base relation has to stay acyclic
         root = Node("", None)
         qs = termination_queries() + acyclic_queries()
+    if warm and not has_delete:
+        qs = qs + consistency_queries()
     # fast path: all queries in one script (one diag_log per query, tagged with its index); if it does not produce every
     # answer (a query raised an error and ended the script, crashed or hung) the queries are run one by one below
-    head = [{"op": "vm", "id": 0, "template": True}] + [{"op": "config", "id": 0, "text": t, "preprocess": False} for t in texts]
+    head = [{"op": "vm", "id": 0, "template": True}]
+    for k, t in enumerate(texts):
+        head.append({"op": "config", "id": 0, "text": t, "preprocess": False})
+        if warm and k + 1 < len(texts):
+            # lookups BETWEEN two loads: whatever they leave behind must not change what is found after the next load
+            head += [{"op": "sqf", "id": 0, "text": WARMUP}, {"op": "exec", "id": 0, "action": "start"}, {"op": "exec", "id": 0, "action": "abort"}]
     one = ";\n".join("diag_log str [%d, %s]" % (k, ex) for k, (lab, ex, want) in enumerate(qs))
     r = ws.call({"mode": "steps", "fork": True, "timeout_ms": 15000, "steps": head + [{"op": "sqf", "id": 0, "text": one}, {"op": "exec", "id": 0, "action": "start"}]}, variant=variant, prepare=PREP)
     fast = None
@@ -409,7 +435,7 @@ def check(ws, files, variant="asan"):
         # find the query that kills it
         culprit = "load"
         for k, (lab, ex, want) in enumerate(qs):
-            st = steps[:1 + len(texts)] + [{"op": "sqf", "id": 0, "text": "diag_log str [%s]" % ex}, {"op": "exec", "id": 0, "action": "start"}]
+            st = steps[:len(head)] + [{"op": "sqf", "id": 0, "text": "diag_log str [%s]" % ex}, {"op": "exec", "id": 0, "action": "start"}]
             r1 = ws.call({"mode": "steps", "fork": True, "timeout_ms": 5000, "steps": st}, variant=variant, prepare=PREP)
             if r1["outcome"] != "ok":
                 culprit = lab.split(" ")[0]
@@ -419,7 +445,7 @@ def check(ws, files, variant="asan"):
         kind = r.get("kind", r["outcome"]) if r["outcome"] == "crash" else r["outcome"]
         return [("C15|%s|%s|%s" % (culprit, kind_class(kind), feat), "config %r: %s during %s (%s)" % (texts, kind, culprit, r.get("frame", "")[:100]), None, files)], info
     res = r["result"]
-    base = 1 + len(texts)
+    base = len(head)
     for k, (lab, ex, want) in enumerate(qs):
         if want is None:
             continue
@@ -439,6 +465,24 @@ def check(ws, files, variant="asan"):
         if not ok:
             return [("C15|%s|%s" % (lab.split(" ")[0], feat), "config %r: %s = %r, reference %r" % (texts, ex, got, want), None, files)], info
     return [], info
+
+
+def between_items():
+    return [("class", "B", None, "x1"), ("class", "B", None, "x2y"), ("class", "C", None, "x1"), ("class", "C", None, "x2y"), ("class", "C", None, "arr"),
+            ("class", "A", "B", "empty"), ("class", "A", "C", "empty"), ("class", "A", "B", "x1"), ("class", "A", None, "empty"), ("class", "B", "C", "empty"),
+            ("class", "C", "B", "empty"), ("class", "A", "B", "arr+"), ("class", "A", "C", "arr+"), ("fwd", "A")]
+
+
+def gen_between():
+    """Two loads with lookups in between: 3 items, all lookups, 1 item (incl. re-opening a class with another base), all queries."""
+    al = between_items()
+    for f1 in itertools.product(al, repeat=3):
+        for f2 in al:
+            yield [[list(i) for i in f1], [list(f2)]]
+
+
+def check_between(ws, files):
+    return check(ws, files, "fast", warm=True)
 
 
 def check_fast(ws, files):
@@ -481,9 +525,13 @@ def features(files):
 def spaces(tier):
     if tier == "quick":
         return [Space("one-file", gen(2, 1), check, variant="asan", describe="one file with <=2 top-level items"),
+                Space("lookups-between-loads", gen_between, check_between, variant="fast",
+                      describe="two loads (3 items, then 1 item over a 14-item alphabet incl. re-opening with another base) with every lookup executed in between; model oracle where it applies, else `P >> n` = walk along inheritsFrom"),
                 Space("one-file-3-items-delete", gen_three_delete, check_fast, variant="fast",
                       describe="one file with 3 top-level items (names A, B; reduced alphabet) of which at least one holds `delete x;`: all read orders of delete / definition / base link"),
                 ]
     return [Space("one-file", gen(2, 1), check, variant="asan", describe="one file with <=2 top-level items over the full item alphabet"),
             Space("one-file-3-items", gen_three, check_fast, variant="fast", describe="one file with 3 top-level items over the reduced alphabet (bodies: value, array, append, delete, nested classes inheriting; all base kinds)"),
+            Space("lookups-between-loads", gen_between, check_between, variant="fast",
+                  describe="two loads (3 items, then 1 item over a 14-item alphabet incl. re-opening with another base) with every lookup executed in between; model oracle where it applies, else `P >> n` = walk along inheritsFrom"),
             Space("two-files", gen_two_files, check_fast, variant="fast", describe="two files: one item each over the full alphabet; two items then one item over the reduced alphabet for names A, B")]
